@@ -1,4 +1,4 @@
-// C05: chain database consistency after any history of block arrivals.
+// C07: fork choice - reorganisation reaches the longest valid branch and its exact state.
 package main
 
 import (
@@ -43,7 +43,7 @@ func run(ctx *xplor.Ctx) {
 		if err := json.Unmarshal(ctx.Replay, &r); err != nil {
 			panic(err)
 		}
-		fx.ReplayOne(ctx, net, r, fx.OracleC05)
+		fx.ReplayOne(ctx, net, r, fx.OracleC07)
 		return
 	}
 	scs := scenarios(ctx.Tier)
@@ -51,7 +51,7 @@ func run(ctx *xplor.Ctx) {
 		if !ctx.Mine(i) || ctx.Expired() {
 			continue
 		}
-		fx.Explore(ctx, net, sc, fx.OracleC05, 20000)
+		fx.Explore(ctx, net, sc, fx.OracleC07, 20000)
 		if i == 3 {
 			ctx.Sample(map[string]interface{}{"scenario": sc, "events": "deliver any block of the tree, any number of times, in any order; BFS to a fixpoint over node states"})
 		}
@@ -61,9 +61,9 @@ func run(ctx *xplor.Ctx) {
 
 func main() {
 	xplor.Main(xplor.Check{
-		ID:    "C05",
+		ID:    "C07",
 		Level: "model_checking",
-		Rule:  "explicit-state BFS to a fixpoint per scenario; scenario = one block tree (one representative per isomorphism class, <= m blocks, <= L leaves) x flavour (empty blocks | blocks with a tx shared by all branches at the same height and a conflicting per-block tx) x (no invalid block | one block invalid in one of 5 ways); event = deliver any block (duplicates, orphans, forks); state key = digest of chain store content, state store keys, state root, orphan pool, bad-block cache, DPoS status; distinct_nontrivial = distinct (scenario, node state) pairs reached",
+		Rule:  "fork-choice oracle (P1 best is valid; P2 a shorter/equal branch never displaces the main chain; P3 best is a longest stored fully-valid branch; P4 full world state = reference execution of the path to best; P5 txs only on the abandoned branch are offered back to the pool) on every transition of an explicit-state BFS to a fixpoint per scenario; scenario = one block tree (one representative per isomorphism class, <= m blocks, <= L leaves) x flavour (empty blocks | blocks with a tx shared by all branches at the same height and a conflicting per-block tx) x (no invalid block | one block invalid in one of 5 ways); event = deliver any block (duplicates, orphans, forks); state key = digest of chain store content, state store keys, state root, orphan pool, bad-block cache, DPoS status; distinct_nontrivial = distinct (scenario, node state) pairs reached",
 		Assumptions: []string{
 			"blocks are delivered through ChainService.addBlock synchronously (the ChainManager actor serialises AddBlock messages, so there is no concurrency between deliveries)",
 			"contract transactions are executed by the stub VM (not used in this check: transfers only)",
